@@ -1014,3 +1014,15 @@ P.theorems = P.theorems + [
     ("TracklibVerif.Tie.C17", "TV.Tie.C17.tie_sub", "the Lean translation of the CURRENT source of ENUCoords.__sub__ is the component-wise difference"),
     ("TracklibVerif.Tie.C17", "TV.Tie.C17.tie_distance2DTo", "the translation of the CURRENT source of ENUCoords.distance2DTo (with __sub__, norm2D) equals the model's dist2D on all arguments (x ** 2 = x * x)"),
 ]
+
+# ---- tie of algo/analytics.py::ds and ::speed (Gen/Analytics.lean) to the model's dsAt / speedAt, on the view (E, N, U, toAbsTime()) of an observation
+P.theorems = P.theorems + [
+    ("TracklibVerif.Tie.C17", "TV.Tie.C17.tie_ds", "the translation of the CURRENT source of analytics.ds, every track and every index k >= 0: returns the model's dsAt when it is some v, raises IndexError exactly when it is none (x ** 2 = x * x)"),
+    ("TracklibVerif.Tie.C17", "TV.Tie.C17.dsAt_eq_none_iff", "the model's dsAt is none exactly for an index >= 1 past the end"),
+    ("TracklibVerif.Tie.C17", "TV.Tie.C17.tie_ds_inrange", "for k in range(len(track)) analytics.ds does not raise and returns the model's dsAt value"),
+    ("TracklibVerif.Tie.C17", "TV.Tie.C17.tie_speed", "the translation of the CURRENT source of analytics.speed, every track and every index k >= 0: IndexError iff k >= len(track) or len(track) < 2, else the model's speedAt with NAN for none (x ** 2 = x * x; the model's == is Python's float ==)"),
+    ("TracklibVerif.Tie.C17", "TV.Tie.C17.speedAt_out", "where analytics.speed raises IndexError (k >= len(track) or len(track) < 2) the model's speedAt is none"),
+    ("TracklibVerif.Tie.C17", "TV.Tie.C17.tie_speed_some", "if the model's speedAt is some v then analytics.speed returns v"),
+    ("TracklibVerif.Tie.C17", "TV.Tie.C17.tie_speed_none", "if the model's speedAt is none then analytics.speed returns NAN when k < len(track) and len(track) >= 2, raises IndexError otherwise"),
+    ("TracklibVerif.Tie.C17", "TV.Tie.C17.ds_neg", "outside the model (negative Python index): analytics.ds(track, -j) = analytics.ds(track, len(track) - j) for 1 <= j < len(track)"),
+]
